@@ -1,4 +1,5 @@
 import HapVerif.Model.C19
+import HapVerif.Props.C19
 import HapVerif.Generated.CodeC19
 /-!
 # C19 — tie between the model and the source (`firstToken`)
@@ -111,5 +112,196 @@ theorem firstToken_tie (s : List Nat) : CodeC19.firstToken s = some (C19.firstTo
 
 example : CodeC19.firstToken (GoLib.bytes "  \tserver s1 10.0.0.1") = some (GoLib.bytes "server") := by decide +kernel
 example : CodeC19.firstToken (GoLib.bytes "\rserver s1") = some (GoLib.bytes "server") := by decide +kernel
+
+/-! ## `buildBackendCustomConfig` (the whole function, regenerated)
+
+`HapVerif.CodeC19.buildBackendCustomConfig` is the translation of the function that decides whether a
+`config-backend` snippet reaches a backend: the mapper read is an argument, `utils.LineToSlice` is the model's
+`lineToSlice`, the two `logger.Warn` calls are steps of a trace, the assignment to `d.backend.CustomConfig` is the
+first component of the result.  `buildBackendCustomConfig_tie` states that it is the model's `customConfig` — the
+function every theorem of Props/C19.lean is about — so `blocked`, `star_blocks`, `untouched` hold of the CODE. -/
+
+theorem firstTokenT_eq (s : List Nat) : CodeC19.firstTokenT s = C19.firstToken s := by
+  simp [CodeC19.firstTokenT, firstToken_tie]
+
+/-- the label the warnings carry -/
+def label (src : Option String) : String := src.getD "global config"
+
+/-- what the regenerated function returns, read off the model's outcome -/
+def resultOf (custom : List (List Nat)) (fx : List C19.Warned) : C19.Outcome → List (List Nat) × List C19.Warned
+  | .noSnippet => (custom, fx)
+  | .emitted ls => (ls, fx)
+  | .skipStar src => (custom, C19.warn fx "skipping configuration snippet on %s: custom configuration is disabled" (label src))
+  | .skipKw src kw => (custom, C19.warn fx "skipping configuration snippet on %s: keyword '%s' not allowed" (label src) kw)
+
+/-- the inner loop: the first line whose first token is the keyword ends the function -/
+theorem inner_loop {ρ : Type} (lines : List (List Nat)) (kw : List Nat) (g : List C19.Warned → ρ) (fx : List C19.Warned) :
+    GoLib.forRange lines fx (fun line fx =>
+      if (CodeC19.firstTokenT line == kw) then (GoLib.Step.ret (g fx) : GoLib.Step (List C19.Warned) ρ) else GoLib.Step.next fx)
+    = if lines.any (fun l => C19.firstToken l == kw) then .ret (g fx) else .done fx := by
+  induction lines with
+  | nil => simp [GoLib.forRange]
+  | cons l ls ih =>
+    simp only [GoLib.forRange, List.any_cons, firstTokenT_eq]
+    by_cases h : (C19.firstToken l == kw) = true
+    · simp [h]
+    · simp only [h, Bool.false_eq_true, ↓reduceIte, Bool.false_or]
+      simpa [firstTokenT_eq] using ih
+
+/-- the body of the keyword loop, as generated -/
+def kwBody (source : String) (lines custom : List (List Nat)) :
+    List Nat → List C19.Warned → GoLib.Step (List C19.Warned) (List (List Nat) × List C19.Warned) :=
+  fun keyword fx =>
+        if (keyword == ([] : List Nat)) then
+          GoLib.Step.next fx
+        else
+          if (keyword == C19.star) then
+            let fx := (C19.warn fx "skipping configuration snippet on %s: custom configuration is disabled" source)
+            GoLib.Step.ret (custom, fx)
+          else
+            match GoLib.forRange lines fx (fun line fx =>
+                if ((CodeC19.firstTokenT line) == keyword) then
+                  let fx := (C19.warn fx "skipping configuration snippet on %s: keyword '%s' not allowed" source keyword)
+                  GoLib.Step.ret (custom, fx)
+                else
+                  GoLib.Step.next fx) with
+            | .ret r' => GoLib.Step.ret r'
+            | .done fx =>
+              GoLib.Step.next fx
+
+/-- how the function ends after the keyword loop -/
+def finish (lines : List (List Nat)) :
+    GoLib.RDone (List C19.Warned) (List (List Nat) × List C19.Warned) → List (List Nat) × List C19.Warned
+  | .ret r' => r'
+  | .done fx => (lines, fx)
+
+/-- the generated function with its loop body and its ending named -/
+def spec (disableKeywords : List (List Nat)) (cfg : C19.Cfg) (custom : List (List Nat)) (fx : List C19.Warned) :
+    List (List Nat) × List C19.Warned :=
+  let lines := C19.lineToSlice cfg.value
+  if ((GoLib.len lines) == (0 : Int)) then (custom, fx)
+  else
+    finish lines (GoLib.forRange disableKeywords fx
+      (kwBody (if cfg.source.isSome then cfg.source.getD "" else "global config") lines custom))
+
+theorem code_eq_spec (kws : List (List Nat)) (cfg : C19.Cfg) (custom : List (List Nat)) (fx : List C19.Warned) :
+    CodeC19.buildBackendCustomConfig kws cfg custom fx = spec kws cfg custom fx := by
+  unfold CodeC19.buildBackendCustomConfig spec
+  simp only []
+  split
+  · rfl
+  · rfl
+
+/-- the keyword loop is the model's `scan` -/
+theorem outer_loop (src : Option String) (lines : List (List Nat)) (custom : List (List Nat)) (kws : List (List Nat))
+    (fx : List C19.Warned) :
+    GoLib.forRange kws fx (kwBody (label src) lines custom)
+    = match C19.scan src lines kws with
+      | some o => .ret (resultOf custom fx o)
+      | none => .done fx := by
+  induction kws with
+  | nil => simp [GoLib.forRange, C19.scan]
+  | cons k ks ih =>
+    simp only [GoLib.forRange, C19.scan]
+    by_cases h1 : k = []
+    · subst h1; simpa [kwBody] using ih
+    · have h1' : (k == ([] : List Nat)) = false := by simpa using h1
+      by_cases h2 : k = C19.star
+      · subst h2; simp [kwBody, h1', h1, resultOf]
+      · have h2' : (k == C19.star) = false := by simpa using h2
+        have hb : kwBody (label src) lines custom k fx =
+            (match (if lines.any (fun l => C19.firstToken l == k) then
+                (GoLib.RDone.ret (custom, C19.warn fx "skipping configuration snippet on %s: keyword '%s' not allowed" (label src) k) : GoLib.RDone (List C19.Warned) _)
+              else .done fx) with
+             | .ret r' => GoLib.Step.ret r'
+             | .done fx => GoLib.Step.next fx) := by
+          simp only [kwBody, h1', h2', Bool.false_eq_true, ↓reduceIte]
+          rw [inner_loop lines k (fun fx => (custom, C19.warn fx "skipping configuration snippet on %s: keyword '%s' not allowed" (label src) k)) fx]
+        rw [hb]
+        by_cases h3 : lines.any (fun l => C19.firstToken l == k) = true
+        · simp [h1, h2, h3, resultOf]
+        · simp only [h1, h2, h3, Bool.false_eq_true, ↓reduceIte]
+          simpa using ih
+
+/-- **the regenerated `buildBackendCustomConfig` is the model's `customConfig`**: for every keyword list,
+every value and source the mapper hands over and every previous content of the backend -/
+theorem buildBackendCustomConfig_tie (kws : List (List Nat)) (cfg : C19.Cfg) (custom : List (List Nat)) (fx : List C19.Warned) :
+    CodeC19.buildBackendCustomConfig kws cfg custom fx = resultOf custom fx (C19.customConfig kws cfg) := by
+  rw [code_eq_spec]
+  unfold spec C19.customConfig
+  simp only []
+  by_cases h0 : C19.lineToSlice cfg.value = []
+  · simp [h0, GoLib.len, resultOf]
+  · have hl : (GoLib.len (C19.lineToSlice cfg.value) == (0 : Int)) = false := by
+      simp [GoLib.len, h0]
+    simp only [hl, Bool.false_eq_true, ↓reduceIte, h0]
+    have hsrc : (if cfg.source.isSome = true then cfg.source.getD "" else "global config") = label cfg.source := by
+      cases cfg.source <;> simp [label]
+    rw [hsrc, outer_loop]
+    cases C19.scan cfg.source (C19.lineToSlice cfg.value) kws <;> simp [resultOf, finish]
+
+/-- on a freshly acquired backend the code leaves exactly the lines of the model's outcome -/
+theorem code_lines (kws : List (List Nat)) (cfg : C19.Cfg) (fx : List C19.Warned) :
+    (CodeC19.buildBackendCustomConfig kws cfg [] fx).1 = (C19.customConfig kws cfg).lines := by
+  rw [buildBackendCustomConfig_tie]
+  cases C19.customConfig kws cfg <;> rfl
+
+/-- **the code drops the whole snippet** when some line starts with a non-empty disabled keyword -/
+theorem code_blocked (kws : List (List Nat)) (cfg : C19.Cfg) (fx : List C19.Warned)
+    (h : ∃ l ∈ C19.lineToSlice cfg.value, ∃ k ∈ kws, k ≠ [] ∧ C19.firstToken l = k) :
+    (CodeC19.buildBackendCustomConfig kws cfg [] fx).1 = [] := by
+  rw [code_lines]; exact C19.blocked kws cfg h
+
+/-- **`*` disables every snippet** -/
+theorem code_star_blocks (kws : List (List Nat)) (cfg : C19.Cfg) (fx : List C19.Warned) (h : C19.star ∈ kws) :
+    (CodeC19.buildBackendCustomConfig kws cfg [] fx).1 = [] := by
+  rw [code_lines]; exact C19.star_blocks kws cfg h
+
+/-- **otherwise the snippet is written as `LineToSlice` produced it** -/
+theorem code_untouched (kws : List (List Nat)) (cfg : C19.Cfg) (fx : List C19.Warned)
+    (h : ¬ C19.Hit kws (C19.lineToSlice cfg.value)) :
+    (CodeC19.buildBackendCustomConfig kws cfg [] fx).1 = C19.lineToSlice cfg.value := by
+  rw [code_lines]; exact C19.untouched kws cfg h
+
+theorem scan_not_emitted (src : Option String) (lines kws : List (List Nat)) (ls : List (List Nat)) :
+    C19.scan src lines kws ≠ some (.emitted ls) := by
+  induction kws with
+  | nil => simp [C19.scan]
+  | cons k ks ih =>
+    unfold C19.scan
+    split
+    · exact ih
+    · split
+      · simp
+      · split
+        · simp
+        · exact ih
+
+/-- a snippet that is dropped leaves what the backend held (nothing half-written), and the code logs at most
+one warning per call -/
+theorem code_dropped_keeps (kws : List (List Nat)) (cfg : C19.Cfg) (custom : List (List Nat)) (fx : List C19.Warned) :
+    ((CodeC19.buildBackendCustomConfig kws cfg custom fx).1 = custom ∨
+      (CodeC19.buildBackendCustomConfig kws cfg custom fx).1 = C19.lineToSlice cfg.value) ∧
+    (CodeC19.buildBackendCustomConfig kws cfg custom fx).2.length ≤ fx.length + 1 := by
+  rw [buildBackendCustomConfig_tie]
+  unfold C19.customConfig
+  simp only []
+  split
+  · simp [resultOf]
+  · cases hs : C19.scan cfg.source (C19.lineToSlice cfg.value) kws with
+    | none => simp [resultOf]
+    | some o =>
+      cases o with
+      | emitted ls => exact absurd hs (scan_not_emitted _ _ _ _)
+      | noSnippet => simp [resultOf]
+      | skipStar s => simp [resultOf, C19.warn]
+      | skipKw s k => simp [resultOf, C19.warn]
+
+example : CodeC19.buildBackendCustomConfig [GoLib.bytes "server"] { source := some "ingress d/i", value := GoLib.bytes "timeout 5s\n  server s1 1.2.3.4" } [] []
+    = ([], [{ fmt := "skipping configuration snippet on %s: keyword '%s' not allowed", source := "ingress d/i", kw := GoLib.bytes "server" }]) := by
+  decide +kernel
+example : (CodeC19.buildBackendCustomConfig [GoLib.bytes "server"] { source := none, value := GoLib.bytes "timeout 5s\nservers 3" } [] []).1
+    = [GoLib.bytes "timeout 5s", GoLib.bytes "servers 3"] := by
+  decide +kernel
 
 end HapVerif.C19Tie
